@@ -68,6 +68,7 @@ def check(ctx: Ctx):
     from . import c03 as _c03
 
     _c03._guarded(ctx, "R15.8", _c15.check_param_aliasing)
+    _c03._guarded(ctx, "R15.7", _c15.check_globals)  # no memo between calls: scores depend on the arrays handed in only
 
 
 _R = "panoptica/panoptica_result.py"
